@@ -278,11 +278,23 @@ class Prop:
         rng = random.Random(seed)
         corpus = self.corpus()
         gen = self.generate(rng, tier)
-        cases = corpus + gen
-        impl_bs = []
-        for c in cases:
-            impl_bs.append(self.run_impl(c))
+        all_cases = corpus + gen
+        cases, impl_bs = [], []
         failures = []      # (case, impl behaviour, reason)
+        for c in all_cases:
+            # an exception the harness of the property does not expect is an outcome outside every documented one:
+            # reported with the input as replay, never a crash of the check
+            try:
+                b = self.run_impl(c)
+            except Exception as e:  # noqa: BLE001
+                import traceback
+                tb = traceback.extract_tb(e.__traceback__)
+                where = next((f"{fr.filename}:{fr.lineno}" for fr in reversed(tb) if "/repo/" in fr.filename), "")
+                failures.append((c, {"unexpected_exception": type(e).__name__, "text": str(e)[:200], "where": where},
+                                 f"the implementation raised {type(e).__name__} ({where}) where the harness expects none"))
+                continue
+            cases.append(c)
+            impl_bs.append(b)
         disagreements = []
         model_bs = [None] * len(cases)
         spec_ok = [True] * len(cases)
@@ -319,15 +331,20 @@ class Prop:
         known = [e for e in load_known(self.id) if e.get("status") == "open"]
         reported = []
         known_hits: dict[str, int] = {}
+        def kmatch(e, c, ib):
+            try:
+                return self.known_match(e, c, ib)
+            except Exception:  # noqa: BLE001
+                return False
         for c, ib, why in failures:
-            hit = next((e for e in known if self.known_match(e, c, ib)), None)
+            hit = next((e for e in known if kmatch(e, c, ib)), None)
             if hit is not None:
                 known_hits[hit["id"]] = known_hits.get(hit["id"], 0) + 1
             else:
                 reported.append((c, ib, why))
         real_dis = []
         for c, ib, mb in disagreements:
-            hit = next((e for e in known if self.known_match(e, c, ib)), None)
+            hit = next((e for e in known if kmatch(e, c, ib)), None)
             if hit is None:
                 real_dis.append((c, ib, mb))
         for e in known:
@@ -338,12 +355,24 @@ class Prop:
         rc = 0
         if reported:
             c, ib, why = reported[0]
+            def still_fails(x):
+                try:
+                    bx = self.run_impl(x)
+                except Exception:  # noqa: BLE001
+                    return True
+                return not self.spec_many([x], [bx])[0]
+
+            def behaviour_of(x):
+                try:
+                    return self.run_impl(x)
+                except Exception as e:  # noqa: BLE001
+                    return {"unexpected_exception": type(e).__name__, "text": str(e)[:200]}
             try:
-                c2 = self.shrink(c, lambda x: not self.spec_many([x], [self.run_impl(x)])[0])
+                c2 = self.shrink(c, still_fails)
             except Exception:  # noqa: BLE001
                 c2 = c
             path = write_replay(self.id, {"property": self.id, "kind": "failing-input", "why": why, "case": c2,
-                                          "impl_behaviour": self.run_impl(c2), "original_case": c,
+                                          "impl_behaviour": behaviour_of(c2), "original_case": c,
                                           "original_behaviour": ib,
                                           "n_failing_cases": len(reported)})
             print(f"VIOLATION property={self.id} replay={path}")
@@ -434,7 +463,12 @@ class Prop:
             print("replay file names a broken theorem / correspondence, no input to run")
             print(json.dumps(data, indent=1)[:2000])
             return 1
-        ib = self.run_impl(case)
+        try:
+            ib = self.run_impl(case)
+        except Exception as e:  # noqa: BLE001
+            print(json.dumps({"case": case, "impl": {"unexpected_exception": type(e).__name__, "text": str(e)[:200]}}, indent=1, default=str))
+            print(f"VIOLATION property={self.id} replay={path}")
+            return 1
         ok = self.spec_many([case], [ib])[0]
         mb = self.model_many([case])[0]
         print(json.dumps({"case": case, "impl": ib, "model": mb, "spec_holds_on_impl": ok}, indent=1, default=str))
